@@ -47,7 +47,7 @@ def build(c):
     C = _imp()
     cls = c["cls"]
     dim = 3 if cls in ("Vector3d", "Miller") else 4
-    data = np.array(c["rows"], dtype=float).reshape(tuple(c["shape"]) + (dim,))
+    data = common.relayout(np.array(c["rows"], dtype=float).reshape(tuple(c["shape"]) + (dim,)), c["rows"])
     if cls == "Miller":
         o = C[cls](xyz=data, phase=phase())
     elif cls == "Misorientation":
